@@ -183,6 +183,9 @@ def _gen_filter(rng, tree, frac_ok):
             fp = f"{pth}/{it['name']}" if pth else it["name"]  # a file named as folder -> not a folder -> empty
             if not any(fp == c or fp.startswith(c + "/") for c in cand):
                 cand.append(fp)
+        if rng.random() < 0.3:
+            # the same folders written the way people write paths: leading and / or trailing separator
+            cand = [rng.choice(["/" + c, c + "/", "/" + c + "/"]) if rng.random() < 0.7 else c for c in cand]
         f["folder_paths"] = cand
     return f
 
